@@ -70,7 +70,7 @@ def body(shape, k, sel):
                 rev = name.split()[1]
                 rt.note(name)
                 x = _new_hand(w, hs, rev, 'worker')
-                x.hand._process(message.make(typ=message.Type.register, rev=rev, inc=1))
+                x.hand._process(message.make(typ=message.Type.register, rev=rev, inc=len(hs) % 2))  # incarnations 0 and 1 alternate over the connections
                 msgs = _drain(x)
                 if rev == 'r1':
                     x.registered = True
